@@ -195,6 +195,18 @@ def discharge(ob, timeout_ms=20000, seed=0, both=False):
                 out['model'] = small_model(ob, s3)
                 out['seed_only'] = True
             return out
+        from .engine import has_quantifier
+
+        if any(has_quantifier(p) for p in ob.pc):
+            # last resort of the counter-model search: bounded universal quantifiers over sequences in the hypotheses
+            # (representation invariants, callee postconditions) make both solvers answer `unknown` on a refutable goal
+            # even when the goal itself is about scalars.  The finite-instance search that decides covers is asked for
+            # a model of hypotheses + negated goal; it accepts a model only when every quantifier's range lies inside
+            # the instantiated window, so the model satisfies the original formula: only `sat` is used
+            bm = bounded_instance_model(list(ob.pc) + [z3.Not(ob.goal)], min(int(timeout_ms), 8000), seed)
+            if bm is not None:
+                return {'status': 'refuted', 'backend': 'z3-bounded-instances', 'time': time.time() - t0, 'model': bm,
+                        'detail': 'counter-model with explicit short sequences and finitely many quantifier instances'}
         return {'status': 'unknown', 'backend': 'z3+cvc5', 'time': time.time() - t0, 'detail': f'z3: {s2.reason_unknown()}; cvc5: {msg or v}'}
     return res
 
